@@ -30,7 +30,7 @@ def main(tier):
             run.violation('ntop/sanitizer', 'sanitizer report: %s' % err.strip().splitlines()[:3], {'engine': 'core_vh addr ntop', 'stderr': err[-3000:]})
     tot = e2.merge_counts(summ)
     n = int(tot.get('addresses', 0))
-    if n < 1000000 and not run.violations:
+    if n < 1000000 and not run.violations and not run.capped:
         raise common.HarnessError('vacuous: only %d addresses enumerated' % n)
     cov = {'evaluations': n, 'distinct_nontrivial': int(tot.get('abstraction_points', 0)),
            'rule': 'every 8-tuple of group values from %s plus 2x7^4 IPv4-mapped/-compatible addresses and 11 boundary forms; every enumerated address is distinct; '
